@@ -5,7 +5,7 @@ Confirmed ones are copied to /verif/seeded_harmless/<id>/ (patch.diff, equiv.py,
 Usage: tools/verify_harmless.py <id>…   (ids like C05a; source /tmp/ref6/out/<prop>/<a|b>/); parallel-safe (one worktree per id)."""
 import json, os, re, shutil, subprocess, sys
 from pathlib import Path
-SRC = Path(os.environ.get('HARMLESS_SRC', '/tmp/ref6/out')); DST = Path('/verif/seeded_harmless')
+SRC = Path(os.environ.get('HARMLESS_SRC', '/tmp/ref6/out')); DST = Path('/verif/seeded_harmless'); SUFFIX = os.environ.get('HARMLESS_SUFFIX', '')
 def sh(cmd, **kw): return subprocess.run(cmd, shell=True, capture_output=True, text=True, **kw)
 for sid in sys.argv[1:]:
     prop, v = sid[:3], sid[3]
@@ -30,10 +30,10 @@ for sid in sys.argv[1:]:
         ok = d0 == d1 and re.fullmatch(r'[0-9a-f]{64}', d0 or '') is not None and 'baseline_missing 0' in suite and 'passed 208' in suite
         res = dict(digest_clean=d0, digest_changed=d1, suite=suite, confirmed=ok)
         if ok:
-            d = DST/sid; d.mkdir(parents=True, exist_ok=True)
+            d = DST/(sid + SUFFIX); d.mkdir(parents=True, exist_ok=True)
             shutil.copy(pd/'patch.diff', d/'patch.diff'); shutil.copy(pd/'equiv.py', d/'equiv.py')
             meta = json.loads((pd/'meta.json').read_text()) if (pd/'meta.json').exists() else {}
-            (d/'meta.json').write_text(json.dumps(dict(property=prop, id=sid, source='independent sub-agent given only the property text and a scratch worktree; asked for a rewrite after which the property still holds', agent_meta=meta,
+            (d/'meta.json').write_text(json.dumps(dict(property=prop, id=sid + SUFFIX, source='independent sub-agent given only the property text and a scratch worktree; asked for a rewrite after which the property still holds', agent_meta=meta,
                 confirmed_by_main=dict(digest_clean=d0, digest_changed=d1, suite_with_patch=suite, at_repo_head=sh('git -C /repo rev-parse --short HEAD').stdout.strip(),
                     how='tools/verify_harmless.py in a scratch worktree (equiv.py on the unchanged tree, git apply patch.diff, equiv.py again, tools/run_baseline.sh <worktree>)')), indent=1))
     sh(f'git -C /repo worktree remove --force {WT}')
